@@ -14,3 +14,23 @@ claimed["C16"] = (
  "Decides on every path of the current source: no return of nil inside a region entered only with a non-nil error (swallowed error), no discarded error result outside an enumerated reasoned list, every Execute returns withTextOutWriter(c.TextOut, c.execute) whose result is f's error with finish's error stored into the returned variable, main returns Parse/Execute errors to the exit-code mapping, possibly-nil *TimeSeries values never reach a dereferencing position in command/handler-reachable code, the only explicit panic is unreachable for validated headers, and mutating commands pass a checked Sync before reporting success. Necessary structural conditions of 'no panic and no silent success'.",
  "Not decided: that each command's effect is complete and correct (value clauses of C08-C11, C18, C20); faults below the os package; panics from slice indexing on hostile data (C15).",
  "DESIGN.md 5 (C16)")
+claimed["C08"] = (
+ "static no-path over the call graph, guard-dominates and derives-from on SSA, truth tables of the diff predicates by abstract enumeration",
+ "Decides on every path of the current source the structure copy rests on: the read side reaches no mutator; both files are read with one clock/window/archive selection; the layout and window checks compare source with destination and guard the write with failing edges; CopyNaN selects Diff vs DiffExcludeSrcNaN computed as source.Diff(destination); the source side is written to the destination handle at the reads' clock; glob mode keeps relative paths; the slot-inclusion predicates of DiffPoints/DiffPointsExcludeSrcNaN have the specified truth tables; a created destination is synced even when nothing is copied. Necessary structural conditions of C08.",
+ "Not decided: slot-by-slot equality of the post-state, idempotence. Known finding C08.R8 (copy's writer propagates, D11) is reported as KNOWN-FINDING.",
+ "DESIGN.md 5 (C08)")
+claimed["C09"] = (
+ "static truth tables by abstract enumeration of decision diagrams, return classification and latched-flag analysis on SSA, derives-from",
+ "Decides on every path: Value.Equal/Value.Diff truth tables over (IsNaN v, IsNaN u, v==u); DiffPoints' inclusion predicate; diffOneFile's verdict (missing side and listed differences -> ErrDiffFound, clean only under AllEmpty of source.Diff(destination), mismatches -> error, other errors propagated); the verdict flag over files is latched; both reads classify not-exist with their own side; exit-code mapping 0/1/other; the listing's arguments. Necessary structural conditions of C09.",
+ "Not decided: that exactly the differing slots are listed for every pair of files (value clause), symmetry.",
+ "DESIGN.md 5 (C09)")
+claimed["C10"] = (
+ "static truth table of Value.Add, guard-dominates for the agreement loops, return classification of empty globs, derives-from on the accumulator stores",
+ "Decides on every path: Value.Add skips NaN symmetrically; the layout and window loops compare file 0 with files 1..n-1 and must complete before the summation, failing otherwise; an empty match is an os.ErrNotExist PathError at all three glob sites; the accumulator is only initialised from a file's value or updated by Value.Add(acc, file value) at the same slot over full ranges; all files are read with one clock. Necessary structural conditions of C10.",
+ "Not decided: the numeric sum, filepath.Glob semantics.",
+ "DESIGN.md 5 (C10)")
+claimed["C11"] = (
+ "static sibling-skeleton agreement (the copy and diff rule sets re-applied to sum-copy and sum-diff), derives-from, latched-flag analysis",
+ "Decides on every path that sumCopyItem meets copy's obligations (one clock, guarded write of the source side of Diff with NaN included, destination handle, Sync) and sumDiffItem/execute meet diff's verdict obligations, both taking the sum from sumWhisperFile(SrcBase, item, SrcPattern). Necessary structural conditions of C11.",
+ "Not decided: that the stored series equals the sum (value clause). Known finding C08.R8 applies to sum-copy as well.",
+ "DESIGN.md 5 (C11)")
